@@ -3,6 +3,7 @@ package repl
 import (
 	"context"
 	"fmt"
+	"slices"
 	"sync"
 	"time"
 
@@ -288,6 +289,96 @@ func runC07Followers(tier string, seed uint64, idx int) core.Result {
 		}
 	}
 	checkStored("at-the-end")
+	if idx%2 == 1 {
+		// a follower loses its disk, is rebuilt from a snapshot (its log then starts above 0), receives a few more
+		// entries, crashes back to what its database had flushed, restarts and is elected: its replay must resume
+		// right after the commit offset its database carries
+		victim := old
+		vn := c.Node(victim)
+		if err := vn.Wipe(); err != nil {
+			r.Inconclusive(err.Error())
+			return r.Done()
+		}
+		term++
+		h3 := c.Fence(term, c.Nodes)
+		if len(h3) != 3 {
+			r.Inconclusive("fence before the snapshot failed")
+			return r.Done()
+		}
+		if err := c.Install(term, leaderName, 3, h3); err != nil {
+			r.Inconclusive("install: " + scrubErr(err))
+			return r.Done()
+		}
+		if lc, err = c.Node(leaderName).Leader(); err != nil {
+			r.Inconclusive(err.Error())
+			return r.Done()
+		}
+		if !commit(2 + rng.IntN(4)) {
+			return r.Done()
+		}
+		head = logEnd(c.Node(leaderName))
+		if !waitApplied(vn, head) {
+			r.Inconclusive("the rebuilt follower did not catch up")
+			return r.Done()
+		}
+		first := int64(-1)
+		if w := vn.Wal(); w != nil {
+			first = w.FirstOffset()
+		}
+		if err := vn.Crash(); err != nil {
+			r.Inconclusive("crash: " + err.Error())
+			return r.Done()
+		}
+		term++
+		h4 := c.Fence(term, c.Nodes)
+		if len(h4) != 3 {
+			r.Inconclusive("fence before electing the rebuilt node failed")
+			return r.Done()
+		}
+		// (the node's database is open again now that it has been fenced)
+		if a := vn.AppliedOffset(); first > 0 && a < head {
+			r.Count("nodes_rebuilt_from_a_snapshot_crashed_back_below_their_log_end", 1)
+			switch {
+			case a == first-1:
+				r.Count("crash_images_ending_right_before_the_first_log_entry", 1)
+			case a < first-1:
+				r.Count("crash_images_ending_before_the_first_log_entry_minus_one", 1)
+			default:
+				r.Count("crash_images_ending_inside_the_log", 1)
+			}
+			if idx < 6 {
+				r.Sample(map[string]any{"rebuilt_node_log_first": first, "crash_image_commit": a, "log_end": head})
+			}
+		}
+		if best := rc.PickLeader(h4); !slices.Contains(best, victim) {
+			r.Inconclusive("the rebuilt node does not have a maximal head")
+			return r.Done()
+		}
+		if err := c.Install(term, victim, 3, h4); err != nil {
+			r.Inconclusive("install of the rebuilt node: " + scrubErr(err))
+			return r.Done()
+		}
+		leaderName = victim
+		if lc, err = c.Node(leaderName).Leader(); err != nil {
+			r.Inconclusive(err.Error())
+			return r.Done()
+		}
+		r.Count("rebuilt_nodes_elected_after_a_crash", 1)
+		if !commit(2) {
+			return r.Done()
+		}
+		head = logEnd(c.Node(leaderName))
+		if !commit(1) {
+			return r.Done()
+		}
+		for _, n := range c.Nodes {
+			if !waitApplied(n, head) {
+				r.Inconclusive(n.Name + " did not catch up after the rebuilt node was elected")
+				return r.Done()
+			}
+		}
+		checkStored("after-electing-a-node-rebuilt-from-a-snapshot")
+	}
 	// dumps at equal applied offsets
 	type rep struct {
 		name string
